@@ -129,6 +129,20 @@ Theorem c13_source_id_names_file : forall srcs i s,
 Proof. exact source_tree_names_file. Qed.
 Print Assumptions c13_source_id_names_file.
 
+(* SourceTree as it is (two hash maps keyed by path and by `(index + 1) as u16`): with distinct paths and fewer than 65536
+   files it is the simple model above; the association list handed to composed_one answers like the hash maps *)
+Theorem c13_source_tree_distinct : forall files i p s,
+  NoDup (map fst files) -> (N.of_nat (length files) < 65536)%N -> nth_error files i = Some (p, s) ->
+  tree_source files (N.of_nat i + 1) = Some s.
+Proof. exact tree_source_distinct. Qed.
+Print Assumptions c13_source_tree_distinct.
+
+Theorem c13_source_tree_lookup : forall files id,
+  find (fun p => Nat.eqb (fst p) (N.to_nat id)) (tree_of_files files) =
+  match tree_source files id with Some s => Some (N.to_nat id, s) | None => None end.
+Proof. exact tree_of_files_find. Qed.
+Print Assumptions c13_source_tree_lookup.
+
 (* ---- start <= end ---- *)
 Theorem c13_start_le_end_parser : forall toks i j sid,
   toks_okb 0 toks = true -> i < j -> j <= length toks ->
@@ -206,6 +220,29 @@ Theorem c13_parser_error_located_if_converted : forall s toks i j,
     cs <= ce /\ ce <= length s /\ byte_of_char s cs = sp_start sp /\ byte_of_char s ce = sp_end sp.
 Proof. exact parser_error_located_if_converted. Qed.
 Print Assumptions c13_parser_error_located_if_converted.
+
+(* ---- the repaired pipeline, PREPARED (fixes/F9-byte-spans-converted-in-composed.diff passes prqlc's whole test suite
+   unedited; it is not in /repo, so these are statements about Model/Span.v composed_one_fixed, not about HEAD) ----
+   FULL STRENGTH, no ASCII hypothesis: a parser error over tokens i..j is reported without a panic, as the character span
+   of the text from the start of token i to the end of token j-1, located at both ends. *)
+Theorem c13_parser_error_located : forall s toks i j,
+  let sp := map_span toks i j 1 in
+  toks_okb 0 toks = true -> i < j -> j <= length toks ->
+  boundary s (sp_start sp) -> boundary s (sp_end sp) ->
+  exists cs ce,
+    composed_one_fixed [(1, s)] (Some sp) = Ret (Some (Span cs ce 1), Some (locate (lines s) cs 0, locate (lines s) ce 0)) /\
+    cs <= ce /\ ce <= length s /\ byte_of_char s cs = sp_start sp /\ byte_of_char s ce = sp_end sp.
+Proof. exact parser_error_located_fixed. Qed.
+Print Assumptions c13_parser_error_located.
+
+(* ... and it changes nothing for lexer errors (no double conversion: the seeded change C13/4 is exactly the version of
+   this repair that forgets to turn the lexer's character spans into byte spans first) *)
+Theorem c13_lexer_error_unchanged_by_repair : forall tree s bs be sid,
+  find (fun p => Nat.eqb (fst p) sid) tree = Some (sid, s) ->
+  boundary s bs -> boundary s be -> bs <= be ->
+  lexer_error_reported_fixed tree s bs be sid = lexer_error_reported tree s bs be sid.
+Proof. exact lexer_error_reported_fixed_same. Qed.
+Print Assumptions c13_lexer_error_unchanged_by_repair.
 
 (* ---- interpolation rebasing (`span + 2`) ----
    Full statement (FALSE: triple-quoted f/s-strings): forall tok q i_s i_e, interp_rebase tok i_s i_e = interp_actual tok q i_s i_e *)
@@ -318,6 +355,15 @@ Example c13_ex_predict : predict_reported gen_tables [102; 34; 120; 92; 34; 121;
 Proof. vm_compute. reflexivity. Qed.
 Example c13_ex_exact_hyp : interp_items gen_tables [34; 123; 97; 32; 43; 125; 34]%N
   = Some (1, [Item 123 1 false; Item 97 1 false; Item 32 1 false; Item 43 1 false; Item 125 1 false]).
+Proof. vm_compute. reflexivity. Qed.
+(* two files with the same path: both ids name the content of the LATER one *)
+Example c13_ex_duplicate_path : (tree_source [(7, [97]); (7, [98; 98])] 1, tree_source [(7, [97]); (7, [98; 98])] 2)%N
+  = (Some [98; 98], Some [98; 98])%N.
+Proof. vm_compute. reflexivity. Qed.
+(* the id of the 65536th file is 0 (the id of std.prql) and the 65537th takes id 1 from the first *)
+Example c13_ex_u16_wrap : (u16 (65535 + 1), u16 (65536 + 1), u16 (0 + 1))%N = (0, 1, 1)%N.
+Proof. vm_compute. reflexivity. Qed.
+Example c13_ex_fixed : composed_one_fixed [(1, [233; 43]%N)] (Some (Span 2 3 1)) = Ret (Some (Span 1 2 1), Some ((0, 1), (0, 2))).
 Proof. vm_compute. reflexivity. Qed.
 Example c13_ex_partial_hyp : ascii_before_byte [102;114;111;109;32;233]%N 5 = true.
 Proof. vm_compute. reflexivity. Qed.
